@@ -40,6 +40,16 @@ func (ex *Exec) lookupNameC(p *Path, name string) (Value, bool) {
 			best = o
 		}
 	}
+	if best == nil && !p.inOld {
+		// a parameter the code has renamed: the contract's name still denotes it, with its current value
+		if v := ex.paramAlias[name]; v != nil {
+			if _, ok := p.vars[v]; ok {
+				best = v
+			} else if _, ok := p.cells[v]; ok {
+				best = v
+			}
+		}
+	}
 	if best != nil {
 		if r, ok := p.cells[best]; ok {
 			// the local's address was taken: its current value is in its heap cell
